@@ -1,7 +1,7 @@
 (* C01 - no slashable attestation is ever signed for a key.
    This file holds only the statement, its closing `exact`, non-vacuity examples and the
    refutation of the legacy (pre-fix) variant. *)
-From DV Require Import Model.Instance Proofs.SignerProofs Proofs.InstanceProofs Proofs.Examples Proofs.ExampleProofs.
+From DV Require Import Model.Paths Proofs.PathsProofs Model.Instance Proofs.SignerProofs Proofs.InstanceProofs Proofs.Examples Proofs.ExampleProofs.
 Local Open Scope Z_scope.
 
 (* slashable (a b : source * target) := same target, or one surrounds the other; the definition is
@@ -40,3 +40,24 @@ Lemma C01_refuted_legacy :
   exists h a b, Forall op_ok h /\
     released_att 1 (snd (run (ex_cfg false) empty_store h)) = [a; b] /\ slashable a b.
 Proof. exact C01_legacy_witness. Qed.
+
+(* "Over its lifetime", restarts in between: the attestation watermarks bind a restarted daemon only if it
+   opens the same store again.  main.go opens the store at util.ResolvePath(storage-path); for every
+   path, the location depends on the configured base directory and the user's home directory only -
+   not on the directory the daemon is started from - and it is absolute whenever those two are. *)
+Theorem C01_store_found_again_after_restart :
+  forall (e1 e2 : penv) (p : string),
+    pe_home e1 = pe_home e2 -> pe_base e1 = pe_base e2 ->
+    resolve_path e1 p = resolve_path e2 p /\
+    (is_abs (pe_home e1) = true -> (pe_base e1 = ""%string \/ is_abs (pe_base e1) = true) -> is_abs (resolve_path e1 p) = true).
+Proof. intros e1 e2 p Hh Hb; split; [exact (resolve_path_ignores_cwd e1 e2 p Hh Hb)|exact (resolve_path_abs e1 p)]. Qed.
+Print Assumptions C01_store_found_again_after_restart.
+
+(* a variant that falls back to the working directory when no home directory is known opens another store *)
+Lemma C01_refuted_cwd_fallback :
+  let e1 := {| pe_cwd := "/"; pe_home := "/root"; pe_base := "" |} in
+  let e2 := {| pe_cwd := "/tmp"; pe_home := "/root"; pe_base := "" |} in
+  (resolve_path_cwd_fallback false e1 "storage" = "/storage" /\
+   resolve_path_cwd_fallback false e2 "storage" = "/tmp/storage" /\
+   resolve_path e1 "storage" = "/root/storage" /\ resolve_path e2 "storage" = "/root/storage")%string.
+Proof. exact cwd_fallback_witness. Qed.
